@@ -61,6 +61,15 @@ class XonshCallMakerVisitor(PythonCallMakerVisitor):
             return "_" + name.lower(), f"self.token('{token.name}')"
         return name, f"self.{name}()"
 
+    @classmethod
+    def _forced(cls, item: Item) -> bool:
+        """A forced token, as it is or as the only content of a group."""
+        if isinstance(item, Forced):
+            return True
+        if isinstance(item, grammar.Group) and len(item.rhs.alts) == 1 and len(item.rhs.alts[0].items) == 1:
+            return cls._forced(item.rhs.alts[0].items[0].item)
+        return False
+
     def rhs_helper(self, node: Rhs) -> tuple[str, str] | None:
         # special case to reduce generated code size
         if (
@@ -68,7 +77,7 @@ class XonshCallMakerVisitor(PythonCallMakerVisitor):
             or (any(a.action for a in node.alts))
             or (any(len(a.items) > 1 for a in node.alts))
             # the argument of expect_forced(...) would be evaluated while the argument tuple is built
-            or (any(isinstance(a.items[0].item, Forced) for a in node.alts))
+            or (any(self._forced(a.items[0].item) for a in node.alts))
             # an alternative that calls an invalid_ rule is guarded by self.call_invalid_rules
             or (any(self.gen.invalidvisitor.visit(a) for a in node.alts))
         ):
